@@ -12,7 +12,7 @@
  *   g_size (bytes requested from data_malloc), g_cnt (elements the block was handed out for).
  * Inv (call boundaries), for every tracked block s:
  *   g_owner => g_alloc && !g_incache;  g_incache => g_alloc && !g_owner && count==1;  g_alloc => g_owner || g_incache
- *   allocated blocks: chunk->origin == arena, chunk->count == g_cnt, chunk->data aligned, after the header,
+ *   allocated blocks: chunk->origin == arena, chunk->count == g_cnt, chunk->data = first aligned address after the header,
  *                     cached: (data - chunk) + elem_size <= g_size
  *   limits active:  used == rest_used + sum(g_cnt over allocated blocks) <= max_used
  *                   released == rest_cached + #cached <= max_released
@@ -46,7 +46,14 @@ static void parsec_lifo_push(parsec_lifo_t *lifo, parsec_list_item_t *item);
 #ifndef OFF
 #define OFF 0                /* base address of every block modulo 64: one Job per multiple of 8 in [0,64)      */
 #endif
-#define OFFMAX 64
+/* ALIGN_FIX (optional): the arena alignment is enumerated (128, 4096, ...) instead of symbolic <= 64; OFF is then the
+ * base address of every block modulo ALIGN_FIX (any multiple of 8 below it), the pool is aligned on ALIGN_FIX. */
+#if defined(ALIGN_FIX) && ALIGN_FIX > 64
+#define PALIGN ALIGN_FIX
+#else
+#define PALIGN 64
+#endif
+#define OFFMAX PALIGN
 /* Roles of the tracked blocks (without loss of generality, by symmetry of the block names):
  *   slot P_SLOT is the block the free list hands out if it hands out any (so: nothing cached => slot P not cached),
  *   slot F_SLOT is the block the allocator returns if it returns any; the remaining slots are bystanders in an
@@ -55,10 +62,17 @@ static void parsec_lifo_push(parsec_lifo_t *lifo, parsec_list_item_t *item);
 #define F_SLOT 1
 #define R_SLOT 0             /* the block given back by release */
 #ifndef AMAX
+#ifdef ALIGN_FIX
+#define AMAX ALIGN_FIX
+#else
 #define AMAX 64              /* largest alignment (power of two) */
+#endif
 #endif
 #define HDR ((uint64_t)sizeof(parsec_arena_chunk_t))
 #define POOLSZ (OFFMAX + 96)
+#if (OFF % 8) != 0 || OFF < 0 || OFF >= OFFMAX
+#error "OFF must be a multiple of 8 in [0, OFFMAX)"
+#endif
 #define NENV 4
 
 struct vin {
@@ -82,8 +96,20 @@ struct vin {
 } vin;
 #include "verif_vin.h"
 
-/* 64-aligned so that a native replay sees the same base-address residues as CBMC (object base = offset 0) */
-static union { char b[POOLSZ]; uint64_t force_align; } __attribute__((aligned(64))) pool[NSLOT];   /* sizeof == 192 */
+/* PALIGN-aligned so that a native replay sees the same base-address residues as CBMC (object base = offset 0) */
+/* a block: OFF untouched bytes, then the header area; sizeof is a multiple of PALIGN, so every block base is OFF mod PALIGN */
+typedef struct {
+#if OFF > 0
+    char pad[OFF];
+#endif
+    union { parsec_arena_chunk_t hdr; char b[96]; uint64_t force_align; } u;
+} __attribute__((aligned(PALIGN))) slot_mem_t;
+/* one object per block (an array of blocks would make every conditional header write a whole-array update) */
+static slot_mem_t pool0, pool1, pool2, pool3;
+static slot_mem_t *const pool_of[4] = { &pool0, &pool1, &pool2, &pool3 };
+#if NSLOT > 4
+#error "at most 4 tracked blocks"
+#endif
 static parsec_arena_t arena;
 static parsec_data_t  the_data;
 static parsec_data_copy_t the_copy;
@@ -244,6 +270,9 @@ static void setup_state(void)
     PARSEC_OBJ_CONSTRUCT(&arena.area_lifo, parsec_lifo_t);
     /* configuration as parsec_arena_construct_ex leaves it (contract of h_construct) */
     V_ASSUME(vin.alignment >= 2 && (vin.alignment & (vin.alignment - 1)) == 0 && vin.alignment <= AMAX);
+#ifdef ALIGN_FIX
+    V_ASSUME(vin.alignment == ALIGN_FIX);
+#endif
     V_ASSUME(vin.elem_size >= 1 && vin.elem_size <= 0xffffffffULL);
     V_ASSUME(vin.max_used >= 0 && vin.max_released >= 0);
     arena.alignment = vin.alignment; arena.elem_size = vin.elem_size;
@@ -252,7 +281,8 @@ static void setup_state(void)
     V_ASSUME(vin.rest_used >= 0 && vin.rest_cached >= 0 && vin.rest_cached <= vin.rest_used);
     g_rest_used = vin.rest_used; g_rest_cached = vin.rest_cached;
     for (int s = 0; s < NSLOT; s++) {
-        g_base[s] = (parsec_arena_chunk_t *)&pool[s].b[OFF];      /* allocators return pointer-aligned memory */
+        g_base[s] = &pool_of[s]->u.hdr;                             /* allocators return pointer-aligned memory */
+        V_ASSERT((((uintptr_t)g_base[s]) & (PALIGN - 1)) == OFF, "C27.harness.inv.block_base_address_is_OFF_modulo_alignment_domain");
         V_ASSUME(vin.st[s] <= 2);
         g_alloc[s] = vin.st[s] != 0; g_owner[s] = vin.st[s] == 1; g_incache[s] = vin.st[s] == 2;
         g_size[s] = 0; g_cnt[s] = 0;
@@ -262,7 +292,7 @@ static void setup_state(void)
             g_cnt[s] = vin.cnt[s]; g_size[s] = vin.size[s];
             g_base[s]->origin = &arena;
             g_base[s]->count = vin.cnt[s];
-            V_ASSUME(vin.dataoff[s] >= HDR && vin.dataoff[s] < (1ULL << 40));
+            V_ASSUME(vin.dataoff[s] >= HDR && vin.dataoff[s] < HDR + vin.alignment);   /* Inv: first aligned address behind the header (post of allocate) */
             g_base[s]->data = (char *)g_base[s] + vin.dataoff[s];
             V_ASSUME((((uintptr_t)g_base[s]->data) & (vin.alignment - 1)) == 0);
             if (g_incache[s]) V_ASSUME(vin.dataoff[s] + vin.elem_size <= vin.size[s]);
@@ -356,6 +386,7 @@ static void alloc_step(int any_count)
         V_ASSERT(chunk->count == count, "C27.allocate.post.count_recorded");
         V_ASSERT((((uintptr_t)chunk->data) & (arena.alignment - 1)) == 0, "C27.allocate.post.data_aligned_as_requested");
         V_ASSERT((uintptr_t)chunk->data >= (uintptr_t)chunk + HDR, "C27.allocate.post.data_does_not_overlap_header");
+        V_ASSERT((uintptr_t)chunk->data - ((uintptr_t)chunk + HDR) < arena.alignment, "C27.allocate.post.data_is_first_aligned_address_behind_header");
         V_ASSERT(((uintptr_t)chunk->data - (uintptr_t)chunk) + arena.elem_size * count <= g_size[s],
                  "C27.allocate.post.block_at_least_count_times_elem_size");
         V_ASSERT(the_copy.device_private == chunk->data, "C27.allocate.post.copy_points_to_data");
